@@ -186,6 +186,19 @@ def build_eh_frame(rng, le, asz, address, names, aug=None):
         instrs, depth = [], 0
         for _ in range(rng.randrange(0, 6)):
             allow = [n for n in names if (n != 'DW_CFA_restore_state' or depth > 0) and n != 'DW_CFA_set_loc']
+            if rng.random() < 0.15:
+                # DW_CFA_set_loc: in .eh_frame its address operand uses the FDE pointer encoding of the CIE (absolute
+                # address-sized word without 'R'), relative to the operand's own address under the pcrel modifier
+                opnd = off + 4 + len(body) + 1
+                if pcrel:
+                    d = rng.randrange(-0x8000, 0x8000) if signed else rng.randrange(0, 0x8000)
+                    tgt, st_ = address + opnd + d, d
+                else:
+                    tgt = rng.randrange(0x1000, min(0x7fff0000, (1 << (8 * width - 1)) - 1))
+                    st_ = tgt
+                body += b'\x01' + _enc_value(st_, fde_enc, asz, bo)
+                instrs.append((0x01, [tgt]))
+                continue
             raw, op, args = C.gen_instruction(rng, asz, le, allow)
             nme = C.name_of(op)
             depth += (nme == 'DW_CFA_remember_state') - (nme == 'DW_CFA_restore_state')
